@@ -759,10 +759,33 @@ static void op_level(const Program &P, std::vector<int> &left, std::vector<Step>
     if (!any) out.push_back(cur);
 }
 
+// results of every operation executed on the main thread before any worker thread existed: an operation's result may
+// depend on its arguments only, not on which thread runs it (state cached per thread behind a process-wide flag, ...)
+static std::string g_main_result[64][sx::MAXT];
+static void main_thread_references()
+{
+    std::vector<char> buf(sx::RESCAP);
+    for (int op = 0; op < c20_num_ops(); ++op)
+        for (int salt = 0; salt < sx::MAXT; ++salt)
+            for (int rep = 0; rep < 2; ++rep) {  // twice: the second call is past any one-time initialisation
+                c20_run_op(op, salt, sx::g_shared, buf.data(), buf.size());
+                g_main_result[op][salt] = buf.data();
+            }
+}
+
 static void explore_program(Ctx &c, const Program &P, unsigned bound)
 {
     for (int i = 0; i < P.n; ++i)
-        for (int k = 0; k < P.nops[i]; ++k) run_solo(P.progs[i][k], i);
+        for (int k = 0; k < P.nops[i]; ++k) {
+            run_solo(P.progs[i][k], i);
+            VF_COUNT("validated");
+            if (g_solo[P.progs[i][k]][i].result != g_main_result[P.progs[i][k]][i]) {
+                c.fail(strf("c20:result-depends-on-the-thread:%s", c20_op_name(P.progs[i][k])),
+                       strf("%s run alone on a worker thread returns %s, on the main thread (same arguments) %s", c20_op_name(P.progs[i][k]),
+                            vf::vis(g_solo[P.progs[i][k]][i].result, 160).c_str(), vf::vis(g_main_result[P.progs[i][k]][i], 160).c_str()));
+                return;
+            }
+        }
     // (1) operation-level interleavings
     std::vector<int> left(P.n);
     for (int i = 0; i < P.n; ++i) left[i] = P.nops[i];
@@ -817,6 +840,7 @@ static void build(vf::Plan &plan, const vf::Opts &o)
     sx::init_threads();
     g_sh = c20_make_shared();  // built by (instrumented) library code while no worker thread exists
     sx::g_shared = g_sh;
+    main_thread_references();
     g_sh_image = shared_image();
     load_statics();
     const int NOPS = c20_num_ops();
